@@ -389,14 +389,19 @@ class Verdict:
         for (p, s), k in self.known_hits.items():
             log(f"KNOWN-FINDING: property={p} {k['what']}")
         seen = set()
+        shown = 0
         for v in new:
             key = (v["prop"], v["sig"])
             if key in seen:
                 continue
             seen.add(key)
             path = write_replay(v)
-            log(f"VIOLATION property={v['prop']} replay={path}")
-            log(f"  what: {v['what']}")
+            if shown < 8:
+                log(f"VIOLATION property={v['prop']} replay={path}")
+                log(f"  what: {v['what']}")
+            shown += 1
+        if shown > 8:
+            log(f"  (+{shown - 8} more distinct violations; replays are in {os.path.join(OUT, 'replays')})")
         return 1 if new else 0
 
 
